@@ -1,7 +1,11 @@
 // Environment for the lazy unit (vm/src/lazy.rs force): only the arm taken when the thunk's evaluation fails.
 #[verifier::external_body] pub struct Value { _p: () }
 #[verifier::external_body] pub struct VmError { _p: () }
-#[verifier::external_body] pub struct Waiters { _p: () }     // Option<(oneshot::Sender<()>, Shared<oneshot::Receiver<()>>)>
+// futures oneshot channel: sender, receiver and the shared (clonable) receiver, identified by the channel they belong to
+pub struct Tx { pub chan: int }
+pub struct Rx { pub chan: int }
+pub struct Shared { pub chan: int }
+pub type Waiters = Option<(Tx, Shared)>;     // Option<(oneshot::Sender<()>, Shared<oneshot::Receiver<()>>)>
 // lazy.rs Lazy_: same variants (checked by name each run)
 pub enum Lazy_ { Blackhole(usize, Waiters), Thunk(Value), Value(Value) }
 // api::RuntimeResult: same variants
@@ -49,3 +53,63 @@ pub struct Lazy { pub value: Lazy_, pub thread: ThreadPtr }
 pub fn cloner_alloc(c: &mut Cloner, data: Lazy) -> (r: Result<Lazy, CloneError>)
     ensures r is Ok ==> r->Ok_0 == data
 { unimplemented!() }
+
+// ---- force(): the arms that do not start the evaluation, and the one that does
+pub struct oneshot;
+impl oneshot {
+    // a fresh channel: both ends belong to it
+    #[verifier::external_body]
+    pub fn channel() -> (r: (Tx, Rx)) ensures r.0.chan == r.1.chan { unimplemented!() }
+}
+impl Rx {
+    #[verifier::external_body]
+    pub fn shared(self) -> (r: Shared) ensures r.chan == self.chan { unimplemented!() }
+}
+impl Clone for Shared {
+    #[verifier::external_body]
+    fn clone(&self) -> (r: Shared) ensures r == *self { unimplemented!() }
+}
+#[verifier::external_body] pub struct Thread { _p: () }
+#[verifier::external_body] pub struct RootedThread { _p: () }
+pub uninterp spec fn addr_of(t: Thread) -> usize;            // the identity of a thread: its address
+// R-cast: `t as *const Thread as usize`
+#[verifier::external_body]
+pub fn thread_addr(t: &Thread) -> (r: usize) ensures r == addr_of(*t) { unimplemented!() }
+impl Thread {
+    #[verifier::external_body]
+    pub fn root_thread(&self) -> RootedThread { unimplemented!() }
+}
+// `vm.current_context().push(value)` (R-lock): the computed value is what the forcing thread receives
+#[verifier::external_body]
+pub fn ctx_push(vm: &Thread, value: &Value) { unimplemented!() }
+// GcPtr<Lazy<A>> projected on the creating thread
+pub struct LazyPtr { pub thread: Box<Thread> }
+impl Pushed { pub fn default() -> Pushed { Pushed } }
+pub enum Either<A, B> { Left(A), Right(B) }
+pub struct Ready<T>(pub T);
+pub struct future;
+impl future {
+    pub fn ready<T>(x: T) -> (r: Ready<T>) ensures r.0 == x { Ready(x) }
+}
+// the future a waiting thread gets: it completes when `chan` fires and then pushes the computed value (the
+// continuation `ready.map(move |_| ..).map(RuntimeResult::Return)` itself is not verified)
+pub struct Waiting { pub chan: int }
+#[verifier::external_body]
+pub fn wait_then_push(ready: Shared, lazy: LazyPtr, vm: RootedThread) -> (r: Waiting) ensures r.chan == ready.chan { unimplemented!() }
+// the future that runs the computation (the `async move` block; its failure arm is the obligation force_thunk_failed)
+pub struct Evaluating;
+#[verifier::external_body] pub struct OwnedFunction { _p: () }
+#[verifier::external_body]
+pub fn owned_function_from_value(vm: &Thread, v: &Value) -> OwnedFunction { unimplemented!() }
+#[verifier::external_body]
+pub fn evaluate(function: OwnedFunction, lazy: LazyPtr, vm: RootedThread) -> Evaluating { unimplemented!() }
+impl Value {
+    pub fn get_variants(&self) -> (r: &Value) ensures r == self { self }
+}
+#[verifier::external_body]
+pub fn loop_msg() -> PanicMsg { unimplemented!() }
+#[verifier::external_body]
+pub fn rt_panic() -> !
+    requires false
+{ unimplemented!() }
+pub type ForceFut = Either<Ready<RuntimeResult<Pushed, PanicMsg>>, Either<Evaluating, Waiting>>;
